@@ -134,6 +134,25 @@ def _l1(spec):
             J1 = mo.get_supercurrent(psi)
             mo.set_link_exponents(A2)  # in-place refresh path
             J2 = mo.get_supercurrent(psi2)
+            # the refreshed LIVE Laplacian must be the gauge transform of a Laplacian built for A
+            Llive = sp.csr_matrix(mo.psi_laplacian)
+            LA_f, _ = ops.build_laplacian(mesh, link_exponents=A, fixed_sites=fixed)
+            want_live = sp.diags(g) @ sp.csr_matrix(LA_f) @ sp.diags(1 / g)
+            dlive = fv.max_abs_diff(Llive, want_live) / abs(want_live).max()
+            if dlive > 1e-11:
+                viol("laplacian_not_covariant", {"which": "live_after_refresh", "rel": dlive, "pinned": fixed is not None})
+            # caller re-uses one buffer for the exponents and transforms it in place between the calls
+            buf = np.array(A, copy=True)
+            mo3 = MeshOperators(mesh, SparseSolver.SUPERLU, fixed_sites=fixed, fix_psi=fixed is not None)
+            mo3.build_operators()
+            mo3.set_link_exponents(buf)
+            buf += (dchi / d2)[:, None] * em.directions
+            mo3.set_link_exponents(buf)
+            Jb = mo3.get_supercurrent(psi2)
+            cnt("shared_buffer_checks")
+            db = float(np.max(np.abs(Jb - fv.supercurrent(psi, em.edges, em.edge_lengths, em.directions, A)))) / (float(np.max(np.abs(J1))) + 1e-300)
+            if db > 1e-10:
+                viol("supercurrent_not_gauge_invariant", {"which": "same_buffer_transformed_in_place", "rel": db, "pinned": fixed is not None})
             mo2 = MeshOperators(mesh, SparseSolver.SUPERLU, fixed_sites=fixed, fix_psi=fixed is not None)
             mo2.build_operators()
             mo2.set_link_exponents(A2)
